@@ -257,7 +257,7 @@ def p_c04(q):
 
 def p_c05(q):
     if q:
-        return [mc_router('T'), gen_bfs('X', 2, sample=0.08), gen_bfs('B', 2, sample=0.15), gen_bfs('R', 5, sample=0.3), gen_bfs('A', 2, sample=0.2), gen_bfs('Wd', 2), gogen('bytes', 100), gogen('patterns', 1500, seedoff=2),
+        return [mc_router('T'), gen_bfs('X', 2, sample=0.04), gen_bfs('B', 2, sample=0.1), gen_bfs('R', 5, sample=0.15), gen_bfs('A', 2, sample=0.2), gen_bfs('Wd', 2), gogen('bytes', 100), gogen('patterns', 1500, seedoff=2),
                 gogen('patenum4', 0, name='go-patenum4'), gogen('bytes', 60, fam='match', trace='Trace_Match', seedoff=3), gogen('bytes', 40, fam='group', trace='Trace_Group', seedoff=4)] + cors_stages(0.06, 0)[1:]
     return [mc_router('T'), gen_bfs('X', 2, sample=0.5), gen_bfs('B', 2), gen_bfs('A', 2, sample=0.5), gen_bfs('Wd', 2), gogen('bytes', 3000), gogen('mixed', 1000, seedoff=1),
             gogen('patterns', 30000, seedoff=2), gogen('patenum6', 0, name='go-patenum6'), gogen('bytes', 1500, fam='match', trace='Trace_Match', seedoff=3), gogen('bytes', 1000, fam='group', trace='Trace_Group', seedoff=4)] + cors_stages(0.5, 0)[1:]
